@@ -19,7 +19,7 @@ SEEDS = ["0", "1", "2", "3", "12345"]
 RULE = (
     "Hypothesis-generated L1 value specs (scalars, big ints, floats, unicode/bytes, nested list/tuple/"
     "dict/named tuple/dataclass, sets and frozensets of ints (incl. colliding hashes such as 0/8/2**61-1), "
-    "strs, bytes and (int,str) tuples, frozenset/tuple dict keys) plus a permutation index. Each spec is "
+    "strs, bytes, floats, (int,str) tuples and unorderable int/str/bytes/None mixes, frozenset/tuple dict keys) plus a permutation index. Each spec is "
     "built from its JSON form and hashed with get_type_registry().get_hash in five worker interpreters "
     "started with PYTHONHASHSEED=0,1,2,3,12345 (recycled every 500 cases, so each batch meets fresh "
     "interpreters) and in the harness process, each time with the listed and with a permuted set "
@@ -34,7 +34,8 @@ RULE = (
 ASSUMPTIONS = [
     "object identity structure (which affects pickle memoisation) is the same in every interpreter: values are "
     "always built by vf.lab.values.build from the JSON text of the spec",
-    "set elements are mutually orderable (homogeneous), as Set.get_hash requires",
+    "set elements are ints, strs, bytes, floats or (int, str) tuples of one kind, or an int/str/bytes/None mix "
+    "(unorderable; Set.get_hash then orders by element hash)",
     "pinned hashes were recorded under CPython 3.12 from the unchanged tree; they change only with a deliberate "
     "hash-scheme migration",
     "PYTHONHASHSEED=random is not used (not replayable); five fixed seeds stand in for it",
@@ -64,6 +65,10 @@ def _sets(kind):
             lambda xs: [kind, [["tuple", [["int", a], ["str", b]]] for a, b in xs]]),
         st.lists(st.floats(allow_nan=False, allow_infinity=False, width=16), max_size=4, unique=True).map(
             lambda xs: [kind, [["float", x] for x in xs]]),
+        # elements that cannot be ordered against each other (Set.get_hash falls back to element hashes)
+        st.lists(st.one_of(st.integers(-2, 9).map(lambda n: ["int", n]), _strs.map(lambda x: ["str", x]),
+                           st.binary(max_size=2).map(lambda b: ["bytes", b.hex()]), st.just(["none"])),
+                 min_size=2, max_size=5, unique_by=repr).map(lambda xs: [kind, xs]),
     ))
 
 
@@ -433,7 +438,7 @@ def golden_check(ctx: Ctx, only=None) -> None:
 
 def check(ctx: Ctx) -> None:
     try:
-        ctx.given(cases, lambda c: run_case(ctx, c), ctx.n(1500, 96000))
+        ctx.given(cases, lambda c: run_case(ctx, c), ctx.n(1500, 48000))
         if ctx.shard in (None, 0):
             golden_check(ctx)
     finally:
